@@ -1130,6 +1130,10 @@ class LogicalExpr(CalculusFunction):
                 arg = TerminalExpr(arg, domain=domain.logical_domain)
             elif isinstance(arg, MatrixElement):
                 arg = TerminalExpr(arg, domain=domain.logical_domain)
+            elif isinstance(arg, Expr) and arg.atoms(MatrixSymbolicExpr):
+                # e.g. the pull-back u/det(J) of an L2 function: the symbolic Jacobian
+                # must be lowered before it can be differentiated
+                arg = TerminalExpr(arg, domain=domain.logical_domain)
             # ...
             if dim == 1:
                 lgrad_arg = LogicalGrad_1d(arg)
@@ -1159,6 +1163,10 @@ class LogicalExpr(CalculusFunction):
                 arg = TerminalExpr(arg, domain=domain.logical_domain)
             elif isinstance(arg, MatrixElement):
                 arg = TerminalExpr(arg, domain=domain.logical_domain)
+            elif isinstance(arg, Expr) and arg.atoms(MatrixSymbolicExpr):
+                # e.g. the pull-back u/det(J) of an L2 function: the symbolic Jacobian
+                # must be lowered before it can be differentiated
+                arg = TerminalExpr(arg, domain=domain.logical_domain)
 
             # ..p
             if dim == 1:
@@ -1186,6 +1194,10 @@ class LogicalExpr(CalculusFunction):
             if isinstance(arg, PullBack):
                 arg = TerminalExpr(arg, domain=domain.logical_domain)
             elif isinstance(arg, MatrixElement):
+                arg = TerminalExpr(arg, domain=domain.logical_domain)
+            elif isinstance(arg, Expr) and arg.atoms(MatrixSymbolicExpr):
+                # e.g. the pull-back u/det(J) of an L2 function: the symbolic Jacobian
+                # must be lowered before it can be differentiated
                 arg = TerminalExpr(arg, domain=domain.logical_domain)
             # ...
             if dim == 1:
